@@ -77,6 +77,7 @@ def roundtrip(g, scfg, semantic=True):
             raise M.Viol(f"S-{lab}-semantic:{v.clause}", f"graph re-read from {lab} is no longer walkable/consistent: {v.msg}")
         except M.Inconclusive:
             pass
+    return s2, s3
 
 
 def _eval(col, intg, g, origin):
@@ -94,7 +95,26 @@ def _eval(col, intg, g, origin):
             continue
         col.count("roundtrips")
         try:
-            roundtrip(g, scfg)
+            reread = roundtrip(g, scfg)
+            if stage in ("closed", "loop") and reread:
+                # history: the re-read graph (from the dictionary or from YAML) is restructured further and the
+                # result is written and read again
+                cont = reread[len(g) % 2]
+                try:
+                    if stage == "closed":
+                        cont.restructure_loop()
+                    cont.restructure_branch()
+                except Exception as e:
+                    if not library_raised(e):
+                        raise
+                    col.count("not_evaluated_stage_raised")
+                    cont = None
+                if cont is not None:
+                    col.count("roundtrips")
+                    try:
+                        roundtrip(g, cont)
+                    except M.Viol as v:
+                        raise M.Viol(f"after-reload:{v.clause}", f"graph re-read after {stage}, restructured further, written again: {v.msg}")
         except M.Viol as v:
             col.fail(f"C15:{v.clause}", f"[{stage}/{payload}] {v.msg}", dict(graph=gg.graph_to_json(g), stage=stage, payload=payload), len(g))
         flat = M.Flat(scfg)
@@ -241,7 +261,22 @@ def replay(inp):
             raise
         return []
     try:
-        roundtrip(g, scfg)
+        reread = roundtrip(g, scfg)
+        st_ = inp.get("stage", "branch")
+        if st_ in ("closed", "loop") and reread:
+            cont = reread[len(g) % 2]
+            try:
+                if st_ == "closed":
+                    cont.restructure_loop()
+                cont.restructure_branch()
+            except Exception as e:
+                if not library_raised(e):
+                    raise
+                return []
+            try:
+                roundtrip(g, cont)
+            except M.Viol as v:
+                return [(f"C15:after-reload:{v.clause}", v.msg)]
     except M.Viol as v:
         return [(f"C15:{v.clause}", v.msg)]
     return []
